@@ -489,6 +489,27 @@ func main() {
 			report("deadlock", "clients did not finish within 65 s; stripes held: "+strings.Join(held, ",")+"; keys "+strings.Join(keys, ",")+"; programme: "+strings.Join(all, " | "), st)
 			continue // goroutines are wedged; abandon this server
 		}
+		// KEYS under churn: whatever it lists is the name of a key some command of this history wrote (never an invented or
+		// empty name), and no name twice
+		universe := map[string]bool{}
+		for _, o := range ops {
+			for _, a := range o.Argv[1:] {
+				universe[a] = true
+			}
+		}
+		for _, o := range ops {
+			if o.Answered && strings.EqualFold(o.Argv[0], "KEYS") && o.Reply.K == "arr" {
+				seenName := map[string]bool{}
+				for _, e := range o.Reply.A {
+					name := string(impl.I2B(e.V))
+					if !universe[name] || seenName[name] {
+						report("keys-invented", fmt.Sprintf("KEYS * under concurrent writes listed %q (%s)", name, map[bool]string{true: "twice", false: "a name no command ever wrote"}[seenName[name]]), nil)
+						break
+					}
+					seenName[name] = true
+				}
+			}
+		}
 		panicked := false
 		for _, o := range ops {
 			if o.Reply.K == "panic" {
